@@ -131,7 +131,8 @@ StepRecv(e) ==
          A4 == If(acc /\ e.round > RoundAt(e.toClock) + 1, {Alarm("AcceptedFuturePartial", e, e.kind)})
          A5 == If(e.res \in {"blocked", "panic"}, {Alarm("HandlerDidNotReturn", e, e.res)})
      IN /\ alarms' = alarms \cup A1 \cup A2 \cup A3 \cup A4 \cup A5
-        /\ got' = IF ~acc /\ "idx" \in DOMAIN e THEN [got EXCEPT ![e.to] = {x \in @ : ~(x[1] = e.round /\ x[2] = e.prevd /\ x[3] = e.idx)}] ELSE got
+        /\ got' = IF ~acc /\ "idx" \in DOMAIN e /\ e.valid /\ e.member /\ ~e.own   \* a VALID partial that was turned away does not count; a rejected forgery removes nothing
+                    THEN [got EXCEPT ![e.to] = {x \in @ : ~(x[1] = e.round /\ x[2] = e.prevd /\ x[3] = e.idx)}] ELSE got
         /\ epochOf' = IF "epoch" \in DOMAIN e /\ e.epoch >= 0 THEN [epochOf EXCEPT ![e.to] = e.epoch] ELSE epochOf
   /\ Keep(<<cfg, clk, store, signed, lastTick, epochs, upN, healedAt, reg>>)
 
